@@ -723,3 +723,62 @@ def wrap_lattice(ctx):
         if a.replace("R.", "A.") != b.replace("R.", "A."):
             bad.append((q, f"real {a} ; rule {b}", "wrap:" + q.split()[2].split(".")[0] + ":" + q.split()[1]))
     return bad, {"wrap_result_calls": len(reqs)}
+
+
+# ------------------------------------------------------------------------------------------------ C01 on the array backends
+def storage_independence_lattice(ctx):
+    """C01 through the NumPy and Awkward glue: the same geometric vectors stored in every coordinate system give the same scalar
+    results and vector results with the same Cartesian components (x, y, z, t read from the RESULT), compared with the result for
+    Cartesian storage in the same backend (float64, 1e-9 relative).  -> (bad, stats)"""
+    import awkward as ak
+    r = C.rng(ctx.seed, "storage-independence")
+    bad, n = [], 0
+    scal = {2: ["x", "y", "rho", "phi"], 3: ["x", "y", "z", "rho", "phi", "theta", "eta", "mag", "costheta"],
+            4: ["x", "y", "z", "t", "rho", "phi", "eta", "mag", "tau", "beta", "gamma", "rapidity", "mass2" if False else "tau2"]}
+    vecm = {2: [("rotateZ", [0.7]), ("scale", [2.5]), ("unit", []), ("neg2D", [])],
+            3: [("rotateZ", [0.7]), ("rotateX", [-1.1]), ("rotateY", [0.4]), ("scale", [2.5]), ("unit", []), ("neg2D", []), ("neg3D", []),
+                ("rotate_euler", [0.3, 1.2, -0.4, "yxz"]), ("to_Vector2D", []), ("to_Vector4D", [])],
+            4: [("rotateZ", [0.7]), ("rotateX", [-1.1]), ("scale", [2.5]), ("unit", []), ("neg2D", []), ("neg3D", []), ("boostX", [0.4]), ("boostZ", [-0.3]),
+                ("to_beta3", []), ("to_Vector3D", []), ("to_Vector2D", [])]}
+
+    def carts(res, k):
+        comps = []
+        for c_ in ("x", "y", "z", "t"):
+            if hasattr(res, c_):
+                v_ = getattr(res, c_)
+                comps.append(numpy.asarray(ak.to_numpy(v_) if isinstance(v_, ak.Array) else v_, dtype=float).reshape(-1))
+        return comps
+    for dim in (2, 3, 4):
+        pts = C.strata_points(dim, r, n_random=2)[:6]
+        for tag in ("N.", "A."):
+            mk = C.np_array if tag == "N." else C.ak_array
+            fl = r.choice("gm")
+            base = mk(fl, C.CARTSIG[dim], [C.cart_to_stored(C.CARTSIG[dim], p) for p in pts])
+            for sig in C.SIGS[dim]:
+                arr = mk(fl, sig, [C.cart_to_stored(sig, p) for p in pts])
+                for m in scal[dim]:
+                    n += 1
+                    try:
+                        a = numpy.asarray(ak.to_numpy(getattr(arr, m)) if tag == "A." else getattr(arr, m), dtype=float)
+                        b = numpy.asarray(ak.to_numpy(getattr(base, m)) if tag == "A." else getattr(base, m), dtype=float)
+                        ok = numpy.allclose(a, b, rtol=1e-9, atol=1e-9)
+                        why = f"{a.tolist()[:3]} vs {b.tolist()[:3]}"
+                    except Exception as e:  # noqa: BLE001
+                        ok, why = False, f"{type(e).__name__}: {str(e)[:60]}"
+                    if not ok:
+                        bad.append((f"{m} on {tag}{fl}:{sig}", f"differs from the same vectors in Cartesian storage: {why}", f"storage:{tag}{m}"))
+                for m, a_ in vecm[dim]:
+                    if sig[-1] == "tau" and m in ("boostX", "boostZ") and False:
+                        continue
+                    n += 1
+                    try:
+                        ra, rb = getattr(arr, m)(*a_) if a_ or callable(getattr(arr, m)) else getattr(arr, m), \
+                            getattr(base, m)(*a_) if a_ or callable(getattr(base, m)) else getattr(base, m)
+                        ca, cb = carts(ra, len(pts)), carts(rb, len(pts))
+                        ok = len(ca) == len(cb) and all(numpy.allclose(x_, y_, rtol=1e-9, atol=1e-9) for x_, y_ in zip(ca, cb))
+                        why = f"Cartesian components {[c_.tolist()[:2] for c_ in ca]} vs {[c_.tolist()[:2] for c_ in cb]} ({type(ra).__name__} vs {type(rb).__name__})"
+                    except Exception as e:  # noqa: BLE001
+                        ok, why = False, f"{type(e).__name__}: {str(e)[:60]}"
+                    if not ok:
+                        bad.append((f"{m}{a_} on {tag}{fl}:{sig}", f"does not denote the same vector as for Cartesian storage: {why}"[:300], f"storage:{tag}{m}"))
+    return bad, {"storage_independence_calls": n}
